@@ -115,7 +115,10 @@ func VH_BodyTotal() {
 		t = AuditMessageType(vU16("type"))
 	}
 	body := vASCII("body", n)
-	if vParam("avc", 0) != 0 {
+	if vParam("avc", 0) == 2 {
+		// the same with the blank in front of "for" written out, so that the unknown part is one word longer
+		body = "avc:  denied  " + body + " for  pid=1 comm=\"x\" scontext=a:b:c:s0 tcontext=d:e:f:s0 tclass=file"
+	} else if vParam("avc", 0) != 0 {
 		// an SELinux AVC line with the middle part unknown (permission set present, absent, damaged)
 		body = "avc:  denied  " + body + "for  pid=1 comm=\"x\" scontext=a:b:c:s0 tcontext=d:e:f:s0 tclass=file"
 	}
@@ -270,9 +273,45 @@ func vPickType() AuditMessageType {
 	return AuditMessageType(vU16("type"))
 }
 
+// vPrelude: what a parse returns must not depend on what was parsed before (a parser that keeps
+// state between calls - a cached header, a reused buffer - is only visible in a history). With the
+// parameter "prelude" = k > 0 an earlier well-formed line is parsed first: same number of seconds
+// digits, its own symbolic digits everywhere, a sequence of k digits (so that its header text can be
+// a proper prefix of the next one, equal to it, or unrelated). The returned function checks the
+// earlier message again at the end.
+func vPrelude(secdigits int) func() {
+	k := vParam("prelude", 0)
+	if k <= 0 {
+		return func() {}
+	}
+	secD := vDigits("psec", secdigits)
+	msD := vDigits("pms", 3)
+	seqD := vDigits("pseq", k)
+	vAssume(vHorner(secD) < 1<<34)
+	text := "audit(" + secD + "." + msD + ":" + seqD + "): a=b"
+	var m0 *AuditMessage
+	var err error
+	if vParam("preludeline", 0) != 0 {
+		m0, err = ParseLogLine("type=PATH msg=" + text)
+	} else {
+		m0, err = Parse(AUDIT_PATH, text)
+	}
+	vAssert(err == nil && m0 != nil, "C04/written-header-rejected")
+	if m0 == nil {
+		return func() {}
+	}
+	S, MS, N := vHorner(secD), vHorner(msD), vHorner(seqD)
+	return func() {
+		vAssert(m0.RecordType == AUDIT_PATH && m0.Sequence == uint32(N) && m0.RawData == text &&
+			m0.Timestamp.Unix() == int64(S) && m0.Timestamp.Nanosecond() == int(MS)*1000000,
+			"C04/earlier-message-changed-by-a-later-parse")
+	}
+}
+
 // VH_Header: a written header parses back to exactly what was written.
 func VH_Header() {
 	t := vPickType()
+	defer vPrelude(vParam("secdigits", 10))()
 	secD := vDigits("sec", vParam("secdigits", 10))
 	msD := vDigits("ms", 3)
 	seqD := vDigits("seq", vParam("seqdigits", 10))
@@ -325,6 +364,13 @@ func VH_Header() {
 func VH_HeaderBad() {
 	secD, msD, seqD := "1490137971", "011", "50406"
 	mode := vParam("mode", 0)
+	if vParam("prelude", 0) != 0 { // the well-formed header is parsed first (see vPrelude)
+		good := "audit(" + secD + "." + msD + ":" + seqD + "): a=b"
+		m, err := Parse(AUDIT_SYSCALL, good)
+		vAssert(err == nil && m != nil && m.Sequence == 50406, "C04/written-header-rejected")
+		m, err = ParseLogLine("type=SYSCALL msg=" + good)
+		vAssert(err == nil && m != nil && m.Sequence == 50406, "C04/written-header-rejected")
+	}
 	switch mode {
 	case 0: // sequence out of the uint32 range
 		seqD = vDigits("seq", vParam("seqdigits", 10))
